@@ -319,8 +319,12 @@ def evolving_scenarios(ctx, out):
                 host.eStructuralFeatures.append(E.EReference(nm, rng.choice([Side, Base]), **{flag: True}))
                 hist.append(['flag', nm, flag])
             elif shape == 'containment':
+                # (a containment carrying a flag that does not change ownership: transient / volatile / unsettable)
+                kw = {rng.choice(['transient', 'transient', 'volatile', 'unsettable']): True} if rng.random() < 0.5 else {}
                 host.eStructuralFeatures.append(E.EReference(nm, rng.choice([Side, Base]), upper=rng.choice([1, -1]),
-                                                             containment=True))
+                                                             containment=True, **kw))
+                if kw:
+                    hist.append(['flag', nm, list(kw)[0]])
             else:
                 r1 = E.EReference(nm, Side, upper=-1 if shape == 'bidir' else 1)
                 r2 = E.EReference(nm + 'Of', host, upper=rng.choice([1, -1]))
@@ -332,7 +336,32 @@ def evolving_scenarios(ctx, out):
             live = [o for o in objs if o not in dead]
             if len(live) < 3:
                 break
-            victim = rng.choice(live)
+            # the NEW feature is used for sure: a few links through it, and often its holder is the one deleted
+            newf = host.findEStructuralFeature(nm)
+            holders = []
+            for _ in range(4):
+                hs = [o for o in live if isinstance(o, host.python_class)]
+                cs = [x for x in live if isinstance(x, newf.eType.python_class)]
+                if not hs or not cs:
+                    break
+                o, v = rng.choice(hs), rng.choice(cs)
+                if newf.containment:
+                    a, cyc = o, False
+                    while a is not None:
+                        cyc = cyc or a is v
+                        a = a.eContainer()
+                    if cyc:
+                        continue
+                try:
+                    if newf.many:
+                        o.eGet(nm).append(v)
+                    else:
+                        o.eSet(nm, v)
+                    hist.append(['link', o.name, nm, v.name])
+                    holders.append(o)
+                except Exception as e:  # noqa
+                    hist.append(['link', o.name, nm, v.name, type(e).__name__])
+            victim = rng.choice(holders) if holders and rng.random() < 0.5 else rng.choice(live)
             recursive = rng.random() < 0.7
             before = snap()
             D = set(subtree(victim)) if recursive else {victim}
